@@ -15,7 +15,8 @@ META = {
              "{16,24,36}) grids, a third of them with non-uniform direction bins (nodes moved by < 0.3 bin); U10 1..40 m/s or friction-velocity input, all wind directions; finite/infinite depth; "
              "ST4 input with WAM tail stress; ST4 / ST6 / Romero (strictly positive spectra) dissipation; non-default "
              "parameter sets (+-50 %). Non-trivial = bulk dissipation < 0 and bulk input > 0 for some point; "
-             "distinct = sha1 of the case."),
+             "distinct = sha1 of the case."
+             " Wind directions are also written in (-180,180] or one turn further on; a fifth of the cases are square (nf == nd); batch independence is asserted with explicit and with implicit roughness."),
     "assumptions": [
         "exact clauses use an explicit roughness length exp(-12..-3) m; the implicit-roughness path is exercised for the imbalance clauses and points whose roughness is NaN are counted as undefined_roughness (C10 allows NaN)",
         "'no downwind component' is asserted where cos(theta-theta_w) <= -1e-9 (the bins within rounding of exactly 90 degrees may go either way)",
